@@ -48,7 +48,7 @@ class C17(Prop):
         steps = rng.choice([1, 2, 3])
         first = rng.choice([0, 3, 8, 9])        # 8, 9: the step number gains a digit inside the trace
         nr = rng.choice([1, 2, 3])
-        case: Dict[str, Any] = {"control": _mk_set(rng, nr, steps, first, 0)}
+        case: Dict[str, Any] = {"control": _mk_set(rng, nr, steps, first, 0), "id_k": k}
         mode = rng.choice(["other", "other", "self2", "sameobj", "shrunk", "shrunk"])
         case["mode"] = mode
         if mode == "shrunk":
@@ -155,7 +155,13 @@ class C17(Prop):
                 return {"skip": True}
             dev = getattr(DeviceType, case["dev"])
             try:
-                df = TraceDiff.compare_traces(lc, lt, case["csel"][0], case["tsel"][0], case["csel"][1], case["tsel"][1], dev, case["short"])
+                if case["mode"] == "other" and not case.get("from_loaded") and case["id_k"] % 3 == 0:
+                    # the directory-string form of the arguments, in a history: first the two directories with exchanged roles (discarded), then
+                    # the call that is validated -- what a directory meant in an earlier call says nothing about this one
+                    TraceDiff.compare_traces(dirs["t"], dirs["c"], case["tsel"][0], case["csel"][0], case["tsel"][1], case["csel"][1], dev, case["short"])
+                    df = TraceDiff.compare_traces(dirs["c"], dirs["t"], case["csel"][0], case["tsel"][0], case["csel"][1], case["tsel"][1], dev, case["short"])
+                else:
+                    df = TraceDiff.compare_traces(lc, lt, case["csel"][0], case["tsel"][0], case["csel"][1], case["tsel"][1], dev, case["short"])
                 cl, tl = str(df.columns[0])[:-len("_counts")], str(df.columns[2])[:-len("_counts")]
                 for name, row in df.iterrows():
                     obs["table"].append({"name": str(name), "cc": hta.oval(row[f"{cl}_counts"]), "tc": hta.oval(row[f"{tl}_counts"]),
